@@ -4,7 +4,7 @@ import os
 import sys
 import tempfile
 
-SRC = os.environ.get("PYMOCA_SRC", "/tmp/hunt_C26/src")
+SRC = os.environ.get("PYMOCA_SRC", "/repo/src")
 sys.path.insert(0, SRC)
 sys.path.insert(0, os.path.dirname(os.path.abspath(SRC)))  # for tools/compiler.py
 os.environ["XDG_CACHE_HOME"] = tempfile.mkdtemp(prefix="c26cache")  # private parse cache
